@@ -9,7 +9,7 @@
 // over the whole alphabet inside the execution (a Baggage is an immutable value, every operation
 // returns a new object and the receiver is checked to be unchanged, so the results of the loop
 // iterations are independent). Histories that reach the same (entries, capacity) with the same
-// remaining depth are pruned.
+// remaining depth before a pick are pruned.
 #include <algorithm>
 
 #include "c15_common.h"
@@ -47,15 +47,16 @@ void setup(vf::Options &o) {
     for (int i : idx) r.push_back(v[i]);
     return r;
   };
+  const std::vector<std::string> keys9 = sub(kKeysFull, {0, 2, 3, 4, 5, 6, 7, 9, 12}), values9 = sub(kValuesFull, {0, 1, 3, 4, 5, 7, 8, 9, 10});
   if (!o.thorough) {
-    g_cfg.push_back({"d3", 3, 0, sub(kKeysFull, {0, 1, 2, 3, 4, 5, 6, 7, 8, 9, 12}), sub(kValuesFull, {0, 1, 2, 3, 4, 5, 7, 8, 9, 10, 12})});
+    g_cfg.push_back({"d3", 3, 0, keys9, values9});
     g_cfg.push_back({"d2-full", 2, 0, kKeysFull, kValuesFull});
     g_cfg.push_back({"d2-from2", 2, 1, kKeysFull, kValuesFull});
     g_cfg.push_back({"d2-from179", 2, 2, sub(kKeysFull, {0, 2, 7, 12}), sub(kValuesFull, {0, 8, 13})});
   } else {
     g_cfg.push_back({"d3-full", 3, 0, kKeysFull, kValuesFull});
     g_cfg.push_back({"d3-from2", 3, 1, kKeysFull, kValuesFull});
-    g_cfg.push_back({"d4", 4, 0, sub(kKeysFull, {0, 1, 2, 3, 5, 6, 7, 9, 12}), sub(kValuesFull, {0, 1, 4, 5, 7, 8, 9, 10})});
+    g_cfg.push_back({"d4", 4, 0, sub(kKeysFull, {0, 2, 3, 5, 6, 7, 9, 12}), sub(kValuesFull, {0, 1, 4, 5, 7, 8, 9, 10})});
     g_cfg.push_back({"d5", 5, 0, sub(kKeysFull, {0, 6, 7, 9}), sub(kValuesFull, {0, 7, 8, 10})});
     g_cfg.push_back({"d3-from179", 3, 2, sub(kKeysFull, {0, 2, 7, 12}), sub(kValuesFull, {0, 8, 13})});
   }
@@ -244,12 +245,8 @@ void run(vf::Ctx &c) {
     hist += " " + op_name(cfg, op);
     cur = apply(c, cfg, cur, model, op, h0);
   }
-  // last level: every operation of the alphabet on the state reached
-  {
-    vf::H128 h; h.add(0xc15a); h.add(1); h.add((uint64_t)ci);
-    h.add_str(canon(entries(*cur))); h.add(capacity_of(*cur));
-    c.prune_point(h);
-  }
+  // last level: every operation of the alphabet on the state reached (no prune point here: a prune
+  // point must be followed by a pick, otherwise the confirming replay of a violation is pruned itself)
   vf::H128 oh;
   for (int op = 0; op < NOPS; ++op) {
     List m2 = model;
